@@ -536,6 +536,44 @@ class World:
             return None
         return self._emit(c, m.is_event, inc, m.name, m.opcode, args, m.signature())
 
+    def _act_orphan_clash(self, c, r1, r2, rng):
+        """NOT well-formed: a message that names the id of a live object under another interface (the log started late, or two
+        clients share a log): the tool can not resolve it and displays it as `unresolved type@id?` - while `id` + letters
+        labels of that id exist on the connection"""
+        objs = [o for o in c.live() if o is not c.display and not o.server_range() and o.iface in self.known_names
+                and o.created_by is not None and c.msgs[o.created_by].name != 'bind']
+        if not objs:
+            return None
+        o = objs[r1 % len(objs)]
+        cands = [i for i in ('wl_surface', 'wl_buffer', 'xdg_toplevel', 'wl_region') if i != o.iface]
+        iface = cands[r2 % len(cands)]
+        model = self.proto.get(iface)
+        ms = [m for m in (model.usable(bool(r2 & 4)) if model else []) if not any(a.kind in 'on' for a in m.args)]
+        if not ms:
+            return None
+        m = ms[(r1 >> 8) % len(ms)]
+        inc = Incarnation(c.index, o.id, 0, iface, None, self.now)
+        inc.orphan = True
+        args = self._build_args(c, m, rng, m.is_event, [], [])
+        if args is None:
+            return None
+        return self._emit(c, m.is_event, inc, m.name, m.opcode, args, m.signature())
+
+    def _act_dup_registry(self, c, r1, r2, rng):
+        """NOT well-formed: `wl_display.get_registry(new id wl_registry@<id>)` naming a registry id that is still alive (a
+        program that reconnected, or two logs glued together, without connection tags).  Ground truth creates nothing: only
+        clauses that hold for every history (no two objects share a label, no exception) are judged after it"""
+        regs = [o for o in self._registries(c) if not o.server_range()]
+        if not regs:
+            return None
+        old = regs[r1 % len(regs)]
+        m = self.proto['wl_display'].requests[1]
+        fake = Incarnation(c.index, old.id, 0, 'wl_registry', None, self.now)
+        fake.orphan = True
+        a = m.args[0]
+        args = [GArg('n', fake, iface='wl_registry', typed=True, name=a.name)]
+        return self._emit(c, False, c.display, 'get_registry', 1, args, m.signature())
+
     def _act_churn(self, c, r1, r2, rng):
         """one step of a sync / done / delete_id loop: the realistic way one id gets many incarnations"""
         if c.pending_delete:
@@ -586,7 +624,7 @@ class World:
 
 
 ACT_KINDS = ['get_registry', 'sync', 'done', 'delete_id', 'global', 'bind', 'request', 'event',
-             'request_new', 'event_new', 'mention', 'destroy', 'churn', 'bind_synth', 'destroy_server', 'app_id', 'orphan', 'shm']
+             'request_new', 'event_new', 'mention', 'destroy', 'churn', 'bind_synth', 'destroy_server', 'app_id', 'orphan', 'shm', 'orphan_clash', 'dup_registry']
 
 CHATTER_TEMPLATES = [
     '', '   ', '\t', 'hello world', 'libEGL warning: DRI2: failed to authenticate',
